@@ -986,7 +986,7 @@ func c18RxPool(c *ctx) {
 // timeout): up to 12 such cases are re-run one at a time with every timeout and delay scaled by 4
 // and judged on that run. Anything else (and anything that persists) is reported.
 func c18check(c *ctx, cases []c18case) {
-	retry := c18round(c, cases, 12, true)
+	retry := c18round(c, cases, vlib.Conc(12), true)
 	if len(retry) > 0 {
 		c.res.Distribution["retried-after-early-timeout"] = len(retry)
 		for i := range retry {
